@@ -15,7 +15,7 @@ PROP = dict(
                "value in a file) and checks on the model that nothing of a losing source shows, the winner's text shows in full, the default applies "
                "only when no source defines the setting, references to set variables are replaced exactly once, references to unset variables stay, "
                "non-string kinds are taken verbatim, and the validation verdict is the validity of the applied value. Each vector is then executed "
-               "on the real loader: args, environment and two YAML files are generated for ALL settings of the class at once (95 settings found by "
+               "on the real loader: args, environment and two YAML files are generated for ALL settings of the class at once (100 settings found by "
                "reflection, every setting with a cmdenv tag among them, both CmdEnv names of a two-name tag), loaded with validation (and without it "
                "when validation rejects the text), and the value read back from the resolved configuration, re-tokenised, must equal the model's for "
                "every member; every no-argument getter of the Config implementation must answer with the resolved value; the struct default must "
@@ -26,7 +26,7 @@ PROP = dict(
                "string all present sources use the same placement (1420 vectors); thorough: every placement per source (7360 vectors). "
                "Readings adopted: an explicit empty flag / empty environment variable counts as undefined (only files may set the zero value); "
                "validation also judges file values that a flag or variable overrides, so for the verdict clause the sources below the winner are "
-               "absent or plainly valid; a map given by two files is only compared with equal key sets (merge vs replace is left open); the flag "
+               "absent or plainly valid; a map given by two files may be replaced by the later file or merged per key (the statement leaves it open; a map given by flag/variable replaces); the flag "
                "form of a list is the repeated flag. Values that validation would reject for unrelated reasons (choice lists, API key format, "
                "minimum sizes) are observed through the same loader with --no-validate. The validation verdict is only modelled for host:port "
                "settings (exactly one colon). Known deviations reported as KNOWN-FINDING: cmdenv-slice-first-only, explicit-zero-gets-default.",
@@ -39,6 +39,6 @@ PROP = dict(
              cfg={"quick": "MC_Settings_q.cfg", "thorough": "MC_Settings_t.cfg"},
              budget={"quick": 60, "thorough": 420}, maxwalk=2),
         dict(kind="tlc", name="SettingsIdeal", module="Settings",
-             cfg={"quick": "MC_Settings_ideal.cfg", "thorough": "MC_Settings_ideal.cfg"}, workers=4),
+             cfg={"quick": "MC_Settings_ideal_q.cfg", "thorough": "MC_Settings_ideal.cfg"}, workers=4),
     ],
 )
